@@ -26,6 +26,15 @@ def S(*a):
     return list(a) + [{}]
 
 
+def dimsof(ln):
+    """Dimensions of a declared name: None (scalar), an int (one dimension) or a tuple/list."""
+    if ln is None:
+        return ()
+    if isinstance(ln, int):
+        return (ln,)
+    return tuple(ln)
+
+
 def mentions(e, n):
     if isinstance(e, (tuple, list)):
         if len(e) >= 2 and e[0] in ("var", "idx") and e[1] == n:
@@ -99,13 +108,33 @@ class Gen:
                 if ln is None:
                     return ("var", n)
                 self.features.add("sigarray-read")
-                return ("idx", n, [self.index(ln)])
+                return ("idx", n, self.indices(ln))
         ar = self.arrays()
         if ar and c < 0.88:
             n, ln = r.choice(ar)
             self.features.add("array-read")
-            return ("idx", n, [self.index(ln)])
+            return ("idx", n, self.indices(ln))
         return self.lit()
+
+    def indices(self, ln):
+        """One index per dimension; for several dimensions the positions prefer *different*
+        variables (a variable may then reach a sink only through a non-last index)."""
+        ds = dimsof(ln)
+        if len(ds) <= 1:
+            return [self.index(d) for d in ds]
+        self.features.add("multi-index")
+        out = []
+        used = set()
+        for d in ds:
+            e = self.index(d)
+            if e[0] == "var" and e[1] in used:
+                cands = [x for x in self.scalars() + self.params if x not in used]
+                e = ("var", self.r.choice(cands)) if cands else ("num", self.r.randrange(d))
+            if e[0] == "var":
+                used.add(e[1])
+                self.features.add("multi-index-var")
+            out.append(e)
+        return out
 
     def index(self, ln):
         r = self.r
@@ -186,7 +215,12 @@ class Gen:
             ln = r.randrange(1, 4)
             k = r.random()
             self.features.add("array-decl")
-            if k < 0.5:
+            if r.random() < 0.3:
+                # two or three dimensions, written element-wise
+                ln = tuple(r.randrange(1, 3) for _ in range(r.choice([2, 2, 3])))
+                self.features.add("array-decl-multi")
+                st = S("decl", n, [("num", d) for d in ln], None)
+            elif k < 0.5:
                 st = S("decl", n, [("num", ln)], ("arr", [self.expr(1) for _ in range(ln)]))
             elif k < 0.75 and self.params:
                 # dimension depends on a parameter (dimension event); indexed with constants < 1 only
@@ -198,7 +232,7 @@ class Gen:
             self.declare(n, ("a", ln))
             if st[3] is None:
                 # an array must be written before it is read (SSA conversion rejects the definition otherwise)
-                return [st, S("assign", n, [("num", 0)], "=", first)]
+                return [st, S("assign", n, [("num", 0) for _ in dimsof(ln)], "=", first)]
             return [st]
         if c < 0.50:
             v = r.choice(sc)
@@ -213,7 +247,7 @@ class Gen:
         if c < 0.57 and self.arrays():
             n, ln = r.choice(self.arrays())
             self.features.add("array-update")
-            return [S("assign", n, [self.index(ln)], r.choice(["=", "=", "+="]), self.expr(2))]
+            return [S("assign", n, self.indices(ln), r.choice(["=", "=", "+="]), self.expr(2))]
         if c < 0.70 and depth > 0:
             self.features.add("if")
             cnd = self.cond(1)
@@ -252,7 +286,7 @@ class Gen:
                 tgt = self.sig_out + self.sig_out + self.sig_mid
                 n, ln = r.choice(tgt)
                 op = r.choice(["<--", "<==", "<--"])
-                idx = [] if ln is None else [self.index(ln)]
+                idx = self.indices(ln)
                 e = self.expr(2, arith=(op == "<==" or r.random() < 0.4))
                 self.features.add("sig" + op)
                 return [S("sigassign", n, idx, op, e)]
@@ -278,13 +312,16 @@ class Gen:
         body = []
         if self.template:
             for i in range(r.randrange(1, 3)):
-                ln = None if r.random() < 0.7 else r.randrange(1, 3)
+                k = r.random()
+                ln = None if k < 0.6 else (r.randrange(1, 3) if k < 0.85 else (r.randrange(1, 3), r.randrange(1, 3)))
                 self.sig_in.append(("in%d" % i, ln))
-                body.append(S("sigdecl", "input", "in%d" % i, [] if ln is None else [("num", ln)]))
+                body.append(S("sigdecl", "input", "in%d" % i, [("num", d) for d in dimsof(ln)]))
             for i in range(r.randrange(1, 3)):
-                ln = None if r.random() < 0.6 else r.randrange(1, 3)
+                k = r.random()
+                ln = None if k < 0.5 else (r.randrange(1, 3) if k < 0.75 else
+                                           tuple(r.randrange(1, 3) for _ in range(r.choice([2, 2, 3]))))
                 self.sig_out.append(("out%d" % i, ln))
-                dims = [] if ln is None else [("num", ln)]
+                dims = [("num", d) for d in dimsof(ln)]
                 body.append(S("sigdecl", "output", "out%d" % i, dims))
             if r.random() < 0.35:
                 self.sig_mid.append(("mid0", None))
@@ -301,7 +338,7 @@ class Gen:
             sc = self.scalars()
             if sc and self.sig_out:
                 n, ln = self.sig_out[0]
-                idx = [] if ln is None else [("num", 0)]
+                idx = [("num", 0) for _ in dimsof(ln)]
                 body.append(S("sigassign", n, idx, "<--", self.expr(1, prefer=sc[-3:])))
         return {"kind": "template" if self.template else "function", "name": "T" if self.template else "f",
                 "params": list(self.params), "body": body,
